@@ -275,9 +275,27 @@ def must_constraint(rep, res, entry, origin, label, probs=None, rule="R-FLOW"):
                    f"(a sign attribute enforces only x ≥ 0)") if not ok else "added unconditionally for this configuration")
 
 
+def every_row_solved(rep, res, entry):
+    """the returned intensities are solver output in EVERY row: a zero-initialised result that is written only through a data-dependent
+    row mask leaves the unselected rows at 0, which is neither within positive lower bounds nor the optimum"""
+    items = ret_items(res)
+    if not items:
+        return
+    x = items[0].flat()
+    m = x.tag("filled_through_mask")
+    if m is not None and R.sol_ids(x):
+        rep.violated("R-TYPESTATE", "every row of the returned intensities is a solver result", where=res.fn.loc(), construct=m, entry=entry,
+                     config=res.config,
+                     msg=f"the result buffer is zero-initialised and written only through the row mask in `{m}`: rows the mask leaves out keep "
+                         f"the intensity 0 (below any positive lower bound, and not the fitted optimum)")
+
+
 def hygiene(rep, res, entry, shape=True, purity=True, dtype=True, value=True, refresh=True):
     """Rules that apply to every fitting entry point."""
+    every_row_solved(rep, res, entry)
     R.rule_no_global_state(rep, res, entry)
+    R.rule_extent_coincidence(rep, res, entry)
+    R.rule_block_cover(rep, res, entry)
     R.rule_dtype_casts(rep, res, entry)
     R.rule_row_pick(rep, res, entry)
     R.rule_iterator_reuse(rep, res, entry)
@@ -318,3 +336,34 @@ def raises(res, top_only=True, also_no=lambda res: False):
     if not rs:
         return False
     return None
+
+
+def wrapper_returns_solution(rep, res, entry, callee_names, labels):
+    """an estimator method that wraps a fitting routine returns that routine's results as they are: on every path each returned
+    component still depends on the solver's solution it came from (a component replaced by a constant / a rounded stand-in on some
+    path no longer belongs to the other components)"""
+    calls = [ev for ev in res.events("call") if ev.d["callee"].name in callee_names and R.near(ev) and ev.d.get("result") is not None]
+    if not calls:
+        return
+    rets = [r for r in res.events("return") if len(r.path) == 1 and r.d["val"].items is not None]
+    inner = calls[-1].d["result"]
+    if inner.items is None:
+        return
+    for r in rets:
+        for k, (lab, it) in enumerate(zip(labels, r.d["val"].items)):
+            if k >= len(inner.items):
+                break
+            fi = inner.items[k].flat()
+            want_any = {o for o in fi.data if o.startswith("sol#")}
+            if not want_any:
+                continue
+            # what the routine's own result guarantees on every path (its internal merges, e.g. a possibly zero-trip batch loop, count)
+            want_must = {o for o in fi.tags.get("must_data", fi.data) if o.startswith("sol#")}
+            f = it.flat()
+            must = set(f.tags.get("must_data", f.data))
+            ok = bool(want_any & set(f.data)) and want_must <= must and (bool(want_must) or f.tags.get("must_data") is None
+                                                                       or f.tags.get("must_data") == fi.tags.get("must_data"))
+            rep.check("R-TYPESTATE", f"returned {lab} is the fitting routine's {lab} on every path", ok, where=r.loc,
+                      construct=f"{lab} in `{r.text()[:60]}`", entry=entry, config=res.config,
+                      msg=f"on some path the returned {lab} no longer depends on the solution computed by {calls[-1].d['callee'].name} (it is "
+                          f"replaced by a constant / stand-in): it then does not belong to the other returned components")
